@@ -9,6 +9,10 @@ import sys, os, subprocess, json, shutil
 pid, n = sys.argv[1], sys.argv[2]
 src = f'/tmp/wt/{pid}-out'
 patch, demo, meta = f'{src}/patch{n}.diff', f'{src}/demo{n}_test.go', f'{src}/meta{n}.json'
+stored = f'/verif/seeded/{pid}-{n}'
+if not os.path.exists(patch) and os.path.exists(f'{stored}/patch.diff'):
+    # re-verification of a stored change: everything comes from /verif/seeded
+    patch, demo, meta = f'{stored}/patch.diff', f'{stored}/demo_test.go', f'{stored}/meta.json'
 env = dict(os.environ, GOFLAGS='-mod=mod', GOPROXY='off')
 def sh(cmd, cwd=None, extra=None):
     e = dict(env); e.update(extra or {})
@@ -49,7 +53,8 @@ print(json.dumps({k: res[k] for k in ('confirmed', 'detected', 'patch_applies', 
 if confirmed:
     d = f'/verif/seeded/{pid}-{n}'
     os.makedirs(d, exist_ok=True)
-    shutil.copy(patch, f'{d}/patch.diff'); shutil.copy(demo, f'{d}/demo_test.go')
+    if os.path.abspath(patch) != os.path.abspath(f'{d}/patch.diff'):
+        shutil.copy(patch, f'{d}/patch.diff'); shutil.copy(demo, f'{d}/demo_test.go')
     m = json.load(open(meta)) if os.path.exists(meta) else {}
     m.update({'property': pid, 'confirmed_by': 'tools/seedcheck2.py: demo passes on a clean clone, fails with the patch, pinned suite unchanged (scratch copies; /repo untouched)',
               'checks_run': {p: {'exit': c['rc'], 'lines': c['lines']} for p, c in checks.items()}, 'detected': res['detected'], 'tier': 'quick'})
